@@ -462,6 +462,7 @@ static int32_t wr_data_inner(struct jls_core_fsr_s * self, const void * data, ui
     uint8_t * dst_u8;
     uint8_t shift_this = (data_length * sample_size_bits) % 8;
     uint8_t shift_amount_next = (shift_this + self->shift_amount) % 8;
+    uint8_t carried_bits = self->shift_amount;  // bits of shift_buffer that belong to samples already counted in the chunk
 
     while (data_length) {
         dst_u8 = (uint8_t *) &b->data[0];
@@ -472,7 +473,9 @@ static int32_t wr_data_inner(struct jls_core_fsr_s * self, const void * data, ui
         }
         if (self->shift_amount) {
             uint8_t mask = (1 << self->shift_amount) - 1;
-            uint32_t bits = length * sample_size_bits + self->shift_amount;
+            // after a chunk boundary, shift_buffer holds source bits of the samples that follow (already part of length)
+            uint32_t bits = length * sample_size_bits + carried_bits;
+            carried_bits = 0;
             while (bits) {
                 uint16_t v = (self->shift_buffer & mask);
                 if (bits > self->shift_amount) {  // source bits remain (else only the carried bits are left)
